@@ -80,11 +80,17 @@ JJoined == /\ E.e = "JJoined" /\ ~returned
            /\ UNCHANGED <<started, stepOf, ended, inUse, owner, seen, merged, inside, held>> /\ Step1
 
 (* ------------------------------- pools -------------------------------- *)
-\* a workspace is handed out only while it is in the pool and returned only while it is out
+\* a workspace is handed out only while it is in the pool and returned only while it is out (the workspace put back is
+\* one that was handed out: same kind and identity); a workspace put back goes to the size class PoolFor(capacity) and
+\* must be able to serve the largest request of that class, 2^PoolFor(capacity) elements (Pool.tla: ClassPromise, CapOK).
+\* cap = 0: the hook did not log the capacity of the backing slice - the clause is then vacuous.
+PoolFor(size) == IF size <= 1 THEN 0 ELSE CHOOSE k \in 1 .. 30 : 2 ^ k >= size /\ 2 ^ (k - 1) < size
+CapOK(c) == c = 0 \/ c >= 2 ^ PoolFor(c)
 PGet == /\ E.e = "get" /\ <<E.kind, E.buf>> \notin held
         /\ held' = held \cup {<<E.kind, E.buf>>}
         /\ UNCHANGED <<started, stepOf, ended, inUse, returned, owner, seen, merged, inside>> /\ Step1
 PPut == /\ E.e = "put" /\ <<E.kind, E.buf>> \in held
+        /\ CapOK(E.cap)
         /\ held' = held \ {<<E.kind, E.buf>>}
         /\ UNCHANGED <<started, stepOf, ended, inUse, returned, owner, seen, merged, inside>> /\ Step1
 
